@@ -37,7 +37,7 @@ def frozen_values(driver, l, st):
 
 
 def run(ctx):
-    proof_ok, proof = common.proof_status_all(ctx, "C05", ["gaps1"])
+    proof_ok, proof = common.proof_status_all(ctx, "C05", ["gaps1", "C05_run"])
     s = ctx.seed
     nd = 3000 if ctx.quick else 250000
     nc = 1200 if ctx.quick else 100000
@@ -142,7 +142,13 @@ def run(ctx):
     if not ofail:
         for what, rep in broken:
             ctx.violation(what + "; no input on which the wirelength rises found", rep, found_input=False)
+    # closed model of DetailedPlacer::run / runSwaps / runReordering (coq/DetailedRun.v): whole passes and whole runs, exact; the value
+    # the C++ reports must never rise across a pass
+    from checks import c02_run as crun
+    runres = crun.run_closed(ctx, 3000 if ctx.quick else 60000, ctx.seed + 90)
+    crun.report(ctx, runres, "C05")
     cov = dict(proof)
+    cov["closed_run_tie"] = crun.summary(runres)
     cov.update({"trusted_base": common.TRUSTED_BASE + ["lemon NetworkSimplex (shift pass) is not modelled: its answer is certified per call by the proved checker ShiftLp.shift_cert_ok "
                                                         "(needs the hook coloquinte_verif_shift_hook in /repo; without it only 'value after <= value before' is observed)",
                                                         "candidate positions of the best-move calls are taken from the implementation (theorems hold for every candidate list)"],
@@ -180,6 +186,14 @@ def run(ctx):
 def replay(ctx, path):
     r = json.load(open(path))["replay"]
     case = r.get("case") or r["first_difference"]["case"]
+    if case.startswith(("DR", "DW")):
+        from checks import c02_run as crun
+        res = crun.run_closed(ctx, 0, 0, lines=[case])
+        print("case:", case); print(crun.summary(res))
+        bad = res["mismatch"] + res["driver_fail"] + res["check_fail"] + res["crash"] + res["overflow_throws"] + res["value_increases"]
+        for x in bad[:3]:
+            print("  ", " | ".join(str(y)[:400] for y in x[1:]))
+        return 1 if bad else 0
     if case.startswith("DO"):
         harness = common.build_harness("dopt")
     else:
